@@ -13,6 +13,9 @@
 package c10
 
 import (
+	"strconv"
+	"os"
+	"encoding/json"
 	"bytes"
 	"context"
 	"fmt"
@@ -26,6 +29,7 @@ import (
 
 	"github.com/twmb/franz-go/pkg/kfake"
 	"github.com/twmb/franz-go/pkg/kgo"
+	"github.com/twmb/franz-go/pkg/kmsg"
 
 	"verifharness/internal/e2e"
 	"verifharness/internal/faultnet"
@@ -60,7 +64,10 @@ const (
 	group    = "eos-group"
 )
 
+var debugKeepFrames bool // TestPlan only
+
 type result struct {
+	events []*faultnet.Event
 	Committed map[string]int // id -> times in the read_committed view of the output
 	Aborted   int
 	Drained   bool
@@ -81,7 +88,7 @@ func run(p plan, watchdog time.Duration) *result {
 	var fmu sync.Mutex
 	var faults atomic.Bool
 	faults.Store(true)
-	fnet := &faultnet.Net{}
+	fnet := &faultnet.Net{KeepFrames: debugKeepFrames}
 	fnet.Decide = func(r *faultnet.Req) faultnet.Action {
 		if !faults.Load() || !strings.HasPrefix(r.ClientID, "eos-") {
 			return faultnet.Action{}
@@ -109,7 +116,12 @@ func run(p plan, watchdog time.Duration) *result {
 		return res
 	}
 	defer env.Close()
-	defer func() { res.Fired = fnet.Fired() }()
+	defer func() {
+		res.Fired = fnet.Fired()
+		if debugKeepFrames {
+			res.events = fnet.Events()
+		}
+	}()
 	y := e2e.NewYield(p.Seed, p.Yield, p.VT)
 	if p.Yield > 0 {
 		y.Install()
@@ -373,7 +385,13 @@ func judge(r *vh.Run, p plan, res *result, mode string) {
 		if len(dups) > 10 {
 			dups = dups[:10]
 		}
-		r.Violation("input-record-output-more-than-once/"+p.Protocol, wit(fmt.Sprintf("read_committed view of the output holds duplicates: %v", dups)))
+		sig := "input-record-output-more-than-once/" + p.Protocol
+		if p.SlowEndP > 0 {
+			// plans in which members are evicted at the rebalance timeout while their EndTxn is
+			// held back get their own signature: see known_findings.json
+			sig += "/member-evicted-while-ending"
+		}
+		r.Violation(sig, wit(fmt.Sprintf("read_committed view of the output holds duplicates: %v", dups)))
 	}
 	if !res.Drained {
 		if mode == "vt" {
@@ -452,4 +470,130 @@ func TestCheck(t *testing.T) {
 		"the output view is computed from the output logs' own markers; duplicates are judged at any time, completeness only after the pipeline drained",
 		"a member whose End returns an error is replaced by a new session with the same transactional id, as the documentation prescribes",
 	)
+}
+
+
+// TestPlan runs one plan (JSON in VERIF_C10_PLAN) VERIF_C10_N times; when the output holds
+// duplicates it prints the group / transaction request timeline. A debugging aid.
+func TestPlan(t *testing.T) {
+	raw := os.Getenv("VERIF_C10_PLAN")
+	if raw == "" {
+		t.Skip("set VERIF_C10_PLAN")
+	}
+	var p plan
+	if err := json.Unmarshal([]byte(raw), &p); err != nil {
+		t.Fatal(err)
+	}
+	n, _ := strconv.Atoi(os.Getenv("VERIF_C10_N"))
+	if n == 0 {
+		n = 1
+	}
+	debugKeepFrames = true
+	for i := 0; i < n; i++ {
+		res := run(p, 60*time.Second)
+		var dups []string
+		for id, c := range res.Committed {
+			if c > 1 {
+				dups = append(dups, id)
+			}
+		}
+		sort.Strings(dups)
+		fmt.Printf("run %d: txns=%d commits=%d dups=%v inconcl=%v fired=%v\n", i, res.Txns, res.Commits, dups, res.Inconcl, res.Fired)
+		if len(dups) == 0 {
+			continue
+		}
+		for _, ev := range res.events {
+			q := ev.Req
+			if !strings.HasPrefix(q.ClientID, "eos-") {
+				continue
+			}
+			line := ""
+			respOf := func() kmsg.Response {
+				kreq := kmsg.RequestForKey(q.Key)
+				kreq.SetVersion(q.Version)
+				resp := kreq.ResponseKind()
+				hdr := 8
+				if resp.IsFlexible() {
+					hdr = 9
+				}
+				if len(ev.Resp) < hdr || resp.ReadFrom(ev.Resp[hdr:]) != nil {
+					return nil
+				}
+				return resp
+			}
+			switch q.Key {
+			case 9:
+				line = "OffsetFetch"
+				if r, ok := respOf().(*kmsg.OffsetFetchResponse); ok && r != nil {
+					for _, g := range r.Groups {
+						line += fmt.Sprintf(" gerr=%d", g.ErrorCode)
+						for _, tp := range g.Topics {
+							for _, pt := range tp.Partitions {
+								line += fmt.Sprintf(" p%d=%d/e%d", pt.Partition, pt.Offset, pt.ErrorCode)
+							}
+						}
+					}
+					for _, tp := range r.Topics {
+						for _, pt := range tp.Partitions {
+							line += fmt.Sprintf(" p%d=%d/e%d", pt.Partition, pt.Offset, pt.ErrorCode)
+						}
+					}
+				}
+			case 28:
+				line = "TxnOffsetCommit"
+				if r, ok := q.Decode().(*kmsg.TxnOffsetCommitRequest); ok && r != nil {
+					line += fmt.Sprintf(" gen=%d member=%.8s", r.Generation, r.MemberID)
+					for _, tp := range r.Topics {
+						for _, pt := range tp.Partitions {
+							line += fmt.Sprintf(" p%d=%d", pt.Partition, pt.Offset)
+						}
+					}
+				}
+				if r, ok := respOf().(*kmsg.TxnOffsetCommitResponse); ok && r != nil {
+					for _, tp := range r.Topics {
+						for _, pt := range tp.Partitions {
+							line += fmt.Sprintf(" ->p%d/e%d", pt.Partition, pt.ErrorCode)
+						}
+					}
+				}
+			case 26:
+				line = "EndTxn"
+				if r, ok := q.Decode().(*kmsg.EndTxnRequest); ok && r != nil {
+					line += fmt.Sprintf(" commit=%v epoch=%d", r.Commit, r.ProducerEpoch)
+				}
+				if r, ok := respOf().(*kmsg.EndTxnResponse); ok && r != nil {
+					line += fmt.Sprintf(" ->e%d", r.ErrorCode)
+				}
+			case 11:
+				line = "JoinGroup"
+				if r, ok := respOf().(*kmsg.JoinGroupResponse); ok && r != nil {
+					line += fmt.Sprintf(" ->e%d gen=%d member=%.8s leader=%.8s", r.ErrorCode, r.Generation, r.MemberID, r.LeaderID)
+				}
+			case 14:
+				line = "SyncGroup"
+				if r, ok := respOf().(*kmsg.SyncGroupResponse); ok && r != nil {
+					var a kmsg.ConsumerMemberAssignment
+					a.ReadFrom(r.MemberAssignment)
+					line += fmt.Sprintf(" ->e%d", r.ErrorCode)
+					for _, tp := range a.Topics {
+						line += fmt.Sprintf(" %v", tp.Partitions)
+					}
+				}
+			case 12:
+				if r, ok := respOf().(*kmsg.HeartbeatResponse); ok && r != nil && r.ErrorCode != 0 {
+					line = fmt.Sprintf("Heartbeat ->e%d", r.ErrorCode)
+				}
+			case 13:
+				line = "LeaveGroup"
+			case 25:
+				line = "AddOffsetsToTxn"
+			case 22:
+				line = "InitProducerID"
+			}
+			if line != "" {
+				fmt.Printf("  #%d %s conn%d %s [%s] resplen=%d\n", q.Seq, q.ClientID, q.Conn, line, ev.Action.Kind, ev.RespLen)
+			}
+		}
+		break
+	}
 }
